@@ -513,8 +513,15 @@ pub fn write_parquet(t: &Table, dir: &Path, layout: &ParquetLayout) -> Vec<PathB
         let f = std::fs::File::create(&p).unwrap();
         let mut w = ArrowWriter::try_new(f, t.schema(), Some(props)).unwrap();
         let b = t.batch(lo, hi);
-        if b.num_rows() > 0 {
-            w.write(&b).unwrap();
+        // ArrowWriter::write recurses once per row group a batch spans: a large batch with a tiny
+        // row-group size overflows the stack. Hand it slices of at most 256 row groups (slices
+        // are multiples of the row-group size, so the row-group boundaries are the same).
+        let step = layout.row_group_size.max(1).saturating_mul(256);
+        let mut at = 0usize;
+        while at < b.num_rows() {
+            let len = step.min(b.num_rows() - at);
+            w.write(&b.slice(at, len)).unwrap();
+            at += len;
         }
         w.close().unwrap();
         out.push(p);
